@@ -4,6 +4,7 @@
    `L:hex:hex...` (`L` = empty list, `L:` = one empty string). *)
 From Scrapli Require Import Bytes Regex PlatformTypes Generated Generic Netconf Channel Replay Queue Telnet NcSession Session Network SshArgs.
 From Scrapli Require Pipes Options OptionsRun CloseRun.
+From Scrapli Require NetworkAbs NetworkHistory.
 Open Scope N_scope.
 
 Definition COLON : N := 58.
@@ -305,6 +306,51 @@ Definition net_setup (fs : list bytes) : chan_cfg * list call :=
   let net := mkNet levels (of_hex (nthf 4 fs)) (of_hex (nthf 5 fs)) cfg (fun _ l => l) (fun l => l) in
   (cfg, map (parse_netcall net) (parse_list (nthf 7 fs))).
 
+(* ---- network driver histories at the level of whole exchanges (NetworkHistory.run_aop, the model
+   the C04 history theorems are about) against the device's own log of a real session:
+     netabs <default> <levels> <ops> <start mode> <prompt per level>
+       -> per-op outcome (k = done, E = acquire failed) ; device log (mode|line) ; final mode ; cached level
+   An operation whose acquire fails leaves device and cache as they were (as the driver does for an
+   unknown target); otherwise this is NetworkHistory.run_aops. *)
+Definition parse_aop (spec : bytes) : option NetworkHistory.aop :=
+  let ps := split_on BAR spec in
+  let k := nthf 0 ps in
+  if beqb k (bs "cmd") then Some (NetworkHistory.OCmd [hexf 1 ps])
+  else if beqb k (bs "cmds") then Some (NetworkHistory.OCmd (hexlist (nthf 1 ps)))
+  else if beqb k (bs "cfgs") then Some (NetworkHistory.OCfg (hexf 1 ps) (hexlist (nthf 2 ps)))
+  else if beqb k (bs "acq") then Some (NetworkHistory.OAcq (hexf 1 ps))
+  else None.
+
+Fixpoint prompt_lookup (names prompts : list bytes) (m : bytes) : bytes :=
+  match names, prompts with
+  | n :: ns, p :: ps => if beqb n m then p else prompt_lookup ns ps m
+  | _, _ => []
+  end.
+
+Fixpoint run_aops_tolerant (net : netcfg) (prompt_of : bytes -> bytes) (d : NetworkAbs.adev) (cached : bytes)
+         (ops : list (option NetworkHistory.aop)) (acc : bytes) : bytes * NetworkAbs.adev * bytes :=
+  match ops with
+  | [] => (acc, d, cached)
+  | None :: t => run_aops_tolerant net prompt_of d cached t (acc ++ [63])
+  | Some o :: t =>
+      match NetworkHistory.run_aop net prompt_of d cached o with
+      | Some (d', c') => run_aops_tolerant net prompt_of d' c' t (acc ++ [107])
+      | None => run_aops_tolerant net prompt_of d cached t (acc ++ [69])
+      end
+  end.
+
+Definition run_netabs (fs : list bytes) : list bytes :=
+  let levels := map parse_level (parse_list (nthf 2 fs)) in
+  let cfg := mkCfg 1000 RFail [10] 0%Z in
+  let net := mkNet levels (of_hex (nthf 1 fs)) [] cfg (fun _ l => l) (fun l => l) in
+  let prompt_of := prompt_lookup (map fst levels) (parse_list (nthf 5 fs)) in
+  let ops := map parse_aop (parse_list (nthf 3 fs)) in
+  let '(outs, d, cached) :=
+    run_aops_tolerant net prompt_of (NetworkAbs.mkADev (of_hex (nthf 4 fs)) []) [] ops [] in
+  [ outs;
+    emit_list (map (fun ml => fst ml ++ [BAR] ++ snd ml) (NetworkAbs.d_log d));
+    to_hex (NetworkAbs.d_mode d); to_hex cached ].
+
 Definition show_net (so : rsys * list call_out) : list bytes :=
   let '(s, outs) := so in
   [ join [COMMA] (map emit_out outs);
@@ -447,6 +493,7 @@ Definition dispatch (fs : list bytes) : list bytes :=
   else if beqb name (bs "net") then run_net fs
   else if beqb name (bs "chanalt") then run_chanalt fs
   else if beqb name (bs "netalt") then run_netalt fs
+  else if beqb name (bs "netabs") then run_netabs fs
   else if beqb name (bs "c14") then run_c14 fs
   else if beqb name (bs "login") then run_login fs
   else if beqb name (bs "c16") then Pipes.run_c16 fs
